@@ -12,10 +12,25 @@ def check_n(args):
     if kind == 'list':
         ds = lazy_dataset.new(list(range(n)))
         keys = None
+    elif kind in ('shuffled', 'reversed', 'sorted', 'strided'):
+        import numpy as np
+        base = lazy_dataset.new(list(range(n)))
+        if kind == 'shuffled':
+            ds = base.shuffle(False, rng=np.random.RandomState(n))
+        elif kind == 'reversed':
+            ds = base[::-1]
+        elif kind == 'sorted':
+            ds = base.sort(lambda x: (x * 7) % 11)
+        else:
+            ds = base.concatenate(base.map(lambda x: x + n))[::2] if n else base
+        full = list(ds)
+        keys = None
     else:
         keys = [f'k{i:03d}' for i in range(n)]
         ds = lazy_dataset.new({k: i for i, k in enumerate(keys)})
-    full = list(range(n))
+    if kind in ('list', 'dict'):
+        full = list(range(n))
+    n = len(full)
 
     def bad(key, what, k, i=None):
         viols.append(common.Violation('C15', key, f'n={n} k={k}' + (f' i={i}' if i is not None else '') + f' ({kind}): {what}',
@@ -51,7 +66,7 @@ def check_n(args):
             continue
         flat = [x for li in lists for x in li]
         if flat != full:
-            if sorted(flat) == full:
+            if sorted(flat) == sorted(full):
                 bad('order-lost', f'concatenating the shards gives {flat[:12]}...', k)
             elif len(flat) != len(set(flat)):
                 bad('shards-overlap', f'duplicates in the concatenated shards {flat[:12]}...', k)
@@ -88,6 +103,9 @@ def run(tier):
         tasks.append((n, n <= n_shard, 'list'))
         if n <= (24 if tier == 'quick' else 80):
             tasks.append((n, True, 'dict'))
+        if n <= (30 if tier == 'quick' else 90):
+            for kind in ('shuffled', 'reversed', 'sorted', 'strided'):
+                tasks.append((n, n <= 20, kind))
     tasks.sort(key=lambda t: -t[0])
     total = collections.Counter()
     for st, viols in common.pmap(check_n, tasks):
